@@ -499,7 +499,7 @@ def run_machine(wire, chunks, bounds, frames, case, stats, clause):
                      {'value': show(v), 'sent': end})
                 return
             if not engine.terminal or 'tnet.type.input' not in data:
-                fail('machine-not-terminal', {'message': k, 'terminal': bool(engine.terminal), 'eof': eof, 'sent': sent,
+                fail('machine-not-terminal' if not engine.terminal else 'machine-terminal-without-payload', {'message': k, 'terminal': bool(engine.terminal), 'eof': eof, 'sent': sent,
                                               'fed': fed}, {'terminal': True, 'value': show(v), 'sent': end})
                 return
             got = data['tnet.type.input']
